@@ -7,13 +7,17 @@ package main
 
 import (
 	"bytes"
+	"context"
 	"errors"
 	"fmt"
 	"io"
 	"os"
+	"os/exec"
 	"runtime"
 	"strconv"
 	"strings"
+	"syscall"
+	"time"
 
 	"github.com/pinealctx/neptune/tex"
 
@@ -31,6 +35,8 @@ func main() {
 		extract(os.Args[2], os.Args[3])
 	case "dump":
 		dump(os.Args[2])
+	case "memprobe": // child process of the `memprobe` operation: Grow(n) on a zero buffer under a memory cap
+		memprobeChild(os.Args[2], os.Args[3])
 	case "corr":
 		corr.Main(spec(), os.Args[2:])
 	default:
@@ -395,6 +401,71 @@ func parseOp(f []string) (op, bool) {
 	return o, false
 }
 
+// spaceDependent: a scripted reader that may hand over more than MinRead bytes in one call — how much it delivers then
+// depends on the size of the slice it is offered, i.e. on the capacity policy (outside the compared domain, like Cap()).
+func spaceDependent(o op) bool {
+	if o.name != "readfrom" {
+		return false
+	}
+	for _, k := range o.ks {
+		if k > tex.MinRead {
+			return true
+		}
+	}
+	return o.tail > tex.MinRead
+}
+
+const memprobeCapMiB = 3072
+
+// memprobe runs Grow(n) on a zero buffer of the given kind in a child process whose address space is capped, and
+// classifies the outcome: ok | too-large (recoverable panic ErrTooLarge) | fatal (the runtime aborted: out of memory).
+func memprobe(kind string, n int64) string {
+	ctx, cancel := context.WithTimeout(context.Background(), 30*time.Second)
+	defer cancel()
+	cmd := exec.CommandContext(ctx, os.Args[0], "memprobe", kind, strconv.FormatInt(n, 10))
+	var out, errb bytes.Buffer
+	cmd.Stdout, cmd.Stderr = &out, &errb
+	err := cmd.Run()
+	res := strings.TrimSpace(out.String())
+	switch {
+	case err == nil && (res == "ok" || res == "too-large"):
+		return res
+	case strings.Contains(errb.String(), "out of memory") || strings.Contains(errb.String(), "cannot allocate"):
+		return "fatal"
+	}
+	return "probe-error:" + strings.ReplaceAll(strings.TrimSpace(res+" "+firstLine(errb.String())), " ", "_")
+}
+
+func firstLine(s string) string {
+	if i := strings.IndexByte(s, '\n'); i >= 0 {
+		return s[:i]
+	}
+	return s
+}
+
+func memprobeChild(kind, ns string) {
+	n, _ := strconv.ParseInt(ns, 10, 64)
+	lim := syscall.Rlimit{Cur: memprobeCapMiB << 20, Max: memprobeCapMiB << 20}
+	if err := syscall.Setrlimit(syscall.RLIMIT_AS, &lim); err != nil {
+		fmt.Println("setrlimit-failed")
+		os.Exit(3)
+	}
+	var b bufAPI = new(tex.Buffer)
+	if kind == "bytes" {
+		b = new(bytes.Buffer)
+	}
+	res := "ok"
+	func() {
+		defer func() {
+			if r := recover(); r != nil {
+				res = strings.TrimPrefix(showPanic(r), "panic:")
+			}
+		}()
+		b.Grow(int(n))
+	}()
+	fmt.Println(res)
+}
+
 func offOf(b bufAPI) int { return b.Cap() - cap(b.Bytes()) }
 
 // apply executes one operation; never panics.
@@ -572,13 +643,27 @@ func (s *session) line(l string) string {
 	if !s.started {
 		return "bad-op"
 	}
+	if f[0] == "memprobe" {
+		if len(f) != 2 {
+			return "bad-op"
+		}
+		n, ok := parseNat(f[1])
+		if !ok {
+			return "bad-op"
+		}
+		t, b := memprobe("tex", n), memprobe("bytes", n)
+		if t != b && !s.diverged {
+			s.hit("Grow", "allocation-failure-differs-from-bytes.Buffer", fmt.Sprintf("Grow(%d) on a zero buffer under a %d MiB address-space cap: tex.Buffer -> %s, bytes.Buffer -> %s", n, memprobeCapMiB, t, b))
+		}
+		return "T " + t + " ## B " + b
+	}
 	o, ok := parseOp(f)
 	if !ok {
 		return "bad-op"
 	}
 	isUnread := o.name == "unreadbyte" || o.name == "unreadrune"
 	keeps := o.name == "len" || o.name == "bytes" || o.name == "string" || o.name == "cap" || o.name == "off" || o.name == "rewrite"
-	desync := s.desync || (s.taint && isUnread) || o.name == "rewrite"
+	desync := s.desync || (s.taint && isUnread) || o.name == "rewrite" || spaceDependent(o)
 	var tres string
 	if o.name == "rewrite" {
 		tres = s.rewrite(o)
@@ -704,7 +789,7 @@ func spec() corr.Spec {
 		Rule: "scripts of 1..60 buffer operations run on tex.Buffer and bytes.Buffer; classes: mixed (all operations, sizes biased to the free space, c/2-m and 2c+n boundaries read from a shadow buffer), utf8 (runes incl. negative, surrogates, > 0x10FFFF; invalid byte sequences; ReadRune/Unread*), growth, io (scripted readers/writers), hazard (Unread* after Grow: tex half only), rewrite/sized, invalid arguments, malformed lines; non-trivial = >= 4 lines with at least one write-type and one read-type operation; distinct = distinct script text",
 		TOnly: func(line string) bool {
 			f := strings.Fields(line)
-			return len(f) > 0 && (f[0] == "cap" || f[0] == "off")
+			return len(f) > 0 && (f[0] == "cap" || f[0] == "off" || f[0] == "memprobe")
 		},
 		Classify: func(c corr.Case, line int, want, got string) string {
 			opn := strings.Fields(c.Lines[line] + " ?")[0]
@@ -713,14 +798,15 @@ func spec() corr.Spec {
 				if w[0] != g[0] {
 					return "C11:corr:tex.Buffer-vs-model:" + opn
 				}
-				return "C11:corr:bytes.Buffer-vs-spec:" + opn
+				return "C11:corr:reference-moved:bytes.Buffer-vs-spec:" + opn // the reference (Go release) no longer matches Nv/Spec/C11
 			}
 			return "C11:corr:" + opn
 		},
 		Assumptions: []string{
-			"bytes.Buffer of the sandbox's Go release (1.23.5) is the reference; its answers after Unread* that follows a Grow, and Cap(), are outside the property",
-			"readers handed to ReadFrom either deliver chunks of at most MinRead bytes or fill whatever they are offered until their data is used up (so that what they deliver in total does not depend on the space offered) and return m <= len(p)+1; writers return 0 <= m",
-			"allocation fails exactly for requests beyond the runtime's maxAlloc (2^48); sizes between 128 MiB and 2^48 are never executed",
+			"bytes.Buffer of the sandbox's Go release (" + runtime.Version() + ") is the reference, the abstract buffer Nv/Spec/C11 is validated against it by the B half of every line, not proved; its answers after Unread* that follows a Grow, and Cap(), are outside the property",
+			"KNOWN OBSERVABLE DIFFERENCE outside the contract: a reader whose output depends on the size of the slice it is offered (e.g. min(600, len(p)) bytes per call: tex.Buffer n=1112, bytes.Buffer n=1024 on Go 1.23.5) sees the capacity policy (tex offers 512 then 1024 bytes, bytes.Buffer 512 and 512), which the property leaves open like Cap(); the same bytes delivered always give the same contents and results. Compared readers deliver at most MinRead bytes per call or fill whatever they are offered until their data is used up",
+			"readers return m <= len(p)+1; writers return 0 <= m",
+			"allocation rule of the model (MemOk): requests beyond the runtime's maxAlloc (2^48) end in ErrTooLarge, smaller ones are granted when memory suffices. No run validates the model on real allocations above 128 MiB; `memprobe` checks Grow(2^40) and Grow(2^62) in a child process with a 3 GiB address-space cap (both buffers: fatal out-of-memory resp. ErrTooLarge). Between physical memory and 2^48 the Go runtime aborts both buffers, at sizes that differ with the capacity policy (2c+n vs growSlice)",
 			"bytes between len and cap of the storage are not modelled (never observable through the API)",
 		},
 		Trusted: []string{"modelled, not verified: unicode/utf8 EncodeRune/DecodeRune (Lean transcription validated on both buffers), Go slice/copy/make semantics, bytes.Buffer as the reference"},
